@@ -4,7 +4,11 @@
    runtime goroutines), the proofs are in Proofs/SyncLockProofs.v.
    ASSUMED, not proved: the semantics of sync.RWMutex and sync.Mutex (the enabling conditions
    restated by C08_lock_enabling) and that each modelled step is atomic.  Real schedules are
-   only sampled by the harness (driver "synclock"), whose logs are replayed through this LTS. *)
+   only sampled by the harness (driver "synclock"), whose logs are replayed through this LTS.
+   [reachable s] is "some list of actions leads from the initial state to s"; the actions include
+   AGReleaseAgain (Unblock called again on a block that was already released), so every statement
+   below is about all interleavings WITH repeated releases; the last group of theorems says so
+   explicitly. *)
 From Coq Require Import String List Bool Arith.
 From NRI Require Import Base.Strs Base.Assoc Model.SyncLock Spec.SyncLockSpec Proofs.SyncLockProofs.
 Import ListNotations.
@@ -79,6 +83,86 @@ Theorem C08_accepted_log_is_a_run : forall tr, accepts tr = true ->
   exists s, replay tr = inl s /\ reachable s /\ exactly_once_b (obs_of_state s) = true.
 Proof. exact accepts_exactly_once. Qed.
 Print Assumptions C08_accepted_log_is_a_run.
+
+(* ---- repeated releases: "Unblock ... Safe to call multiple times" ---- *)
+
+(* a repeated Unblock is possible exactly when its goroutine is outside a block (it then references only
+   released blocks), and does nothing at all: not to the reader count, not to anybody else's block *)
+Theorem C08_repeated_release_is_noop : forall s g s', step s (AGReleaseAgain g) = Some s' -> s' = s /\ ~ in_block s g.
+Proof. exact release_again_noop. Qed.
+Print Assumptions C08_repeated_release_is_noop.
+
+(* for ALL interleavings that include any number of repeated releases: the run ends in exactly the state of
+   the run with the repeated releases left out; the RW-lock count is right; exactly-once holds (as the
+   executable predicate and as the statement about snapshot and creation requests); and while a block is held
+   no plugin is in the exclusive section and none can take it, be synchronised or be activated *)
+Theorem C08_repeated_release_harmless : forall l s, steps init l = Some s ->
+  steps init (without_repeats l) = Some s /\
+  readers s = length (gors s) /\
+  exactly_once_b (obs_of_state s) = true /\
+  (forall p c, In p (active s) -> In c (store s) ->
+     ((In c (snapshot_of s p) /\ ~ In (p, c) (recv s)) \/ (~ In c (snapshot_of s p) /\ In (p, c) (recv s)))
+     /\ count_occ pair_dec (recv s) (p, c) <= 1) /\
+  (0 < readers s ->
+     (forall p, ~ in_exclusive s p) /\
+     (forall p, step s (APAcquire p) = None /\ step s (APSnapshot p) = None /\ step s (APActivate p) = None)).
+Proof. exact repeated_release_harmless. Qed.
+Print Assumptions C08_repeated_release_harmless.
+
+(* a repeated release can be put anywhere its goroutine is outside a block without changing where the run ends *)
+Theorem C08_repeated_release_anywhere : forall l1 l2 s1 s g,
+  steps init l1 = Some s1 -> ~ in_block s1 g -> steps s1 l2 = Some s ->
+  steps init (l1 ++ AGReleaseAgain g :: l2) = Some s.
+Proof. exact repeated_release_insert. Qed.
+Print Assumptions C08_repeated_release_anywhere.
+
+(* the situation the harness sets up: g releases again while h still holds a block; h's block stays held and
+   every registration stays out *)
+Theorem C08_repeated_release_keeps_others_blocked : forall s g h s', reachable s -> in_block s h ->
+  step s (AGReleaseAgain g) = Some s' ->
+  g <> h /\ in_block s' h /\ readers s' = readers s /\ 0 < readers s' /\
+  (forall p, ~ in_exclusive s' p) /\
+  (forall p, step s' (APAcquire p) = None /\ step s' (APSnapshot p) = None /\ step s' (APActivate p) = None).
+Proof. exact release_again_keeps_blocked. Qed.
+Print Assumptions C08_repeated_release_keeps_others_blocked.
+
+(* non-vacuity: two blocks held, a plugin waiting, the first block released twice while the second is between
+   relaying its creation and its bookkeeping (the harness's probe) *)
+Definition ex_repeat : list action :=
+  [AGAcquire "ga"; AGAcquire "gb"; APArrive "p"; AGBegin "gb" "cb"; AGEnd "gb";
+   AGBegin "ga" "ca"; AGEnd "ga"; AGStore "ga"; AGRelease "ga"; AGReleaseAgain "ga"].
+
+Example C08_example_repeat : exists s, steps init ex_repeat = Some s /\ reachable s /\
+  in_block s "gb" /\ ~ in_block s "ga" /\ readers s = 1 /\ alookup "p" (plugs s) = Some PWaitW /\
+  step s (AGReleaseAgain "ga") = Some s /\ step s (APAcquire "p") = None /\
+  without_repeats ex_repeat <> ex_repeat.
+Proof.
+  destruct (steps init ex_repeat) as [s|] eqn:E; [|vm_compute in E; discriminate].
+  exists s. split; [reflexivity|]. split; [exists ex_repeat; exact E|].
+  vm_compute in E. inversion E; subst s. vm_compute.
+  repeat split; try reflexivity.
+  - eexists; reflexivity.
+  - intros [gc H]; discriminate.
+  - intros H; discriminate.
+Qed.
+
+Definition ex_probe_log (sync_early : bool) : list lev :=
+  [ LBlockAcq "ga"; LBlockAcq "gb"; LCreateRet "gb" "cb"; LCreateRet "ga" "ca"; LStore "ga" "ca";
+    LBlockRel "ga"; LBlockRelAgain "ga" ] ++
+  (if sync_early
+   then [ LSyncEnter "p" ["ca"]; LSyncRecv "p" ["ca"]; LSyncRet "p" true; LStore "gb" "cb"; LBlockRel "gb" ]
+   else [ LStore "gb" "cb"; LBlockRel "gb"; LSyncEnter "p" ["ca"; "cb"]; LSyncRecv "p" ["cb"; "ca"]; LSyncRet "p" true ]).
+
+(* the log of a correct runtime is accepted; the log of a runtime whose second Unblock releases the OTHER
+   block (the plugin is synchronised while "gb" still holds its block, and never learns of "cb") is rejected,
+   and so is a second release logged while the goroutine is inside a block *)
+Example C08_accepts_repeated_release : accepts (ex_probe_log false) = true.
+Proof. vm_compute. reflexivity. Qed.
+Example C08_rejects_sync_after_stolen_release : accepts (ex_probe_log true) = false.
+Proof. vm_compute. reflexivity. Qed.
+Example C08_rejects_release_again_inside_block :
+  accepts [LBlockAcq "g"; LBlockRelAgain "g"; LCreateRet "g" "c"; LStore "g" "c"; LBlockRel "g"] = false.
+Proof. vm_compute. reflexivity. Qed.
 
 (* ---- non-vacuity: two goroutines create containers while two plugins register ---- *)
 Definition ex_log : list lev :=
